@@ -386,6 +386,8 @@ class PriorityBuffer:
         if mask is not None:
             priority = priority * mask[:current_len]
         probabilities = np.cumsum(priority)
+        if probabilities[-1] <= 0.0:
+            raise ValueError("No valid entry to sample: total priority is 0.")
         random_uniforms = rng.uniform(0, 1, size=batch_size) * probabilities[-1]
         self.sampled_indices = np.searchsorted(probabilities, random_uniforms)
         return self.sampled_indices
